@@ -80,3 +80,15 @@ Proof.
       split; [lia|]. rewrite negb_true_iff, Z.eqb_neq. split; intros H0; lia.
 Qed.
 
+
+Corollary no_mark_reads_back : forall (a d : Z) (limit el : nat), 0 < d -> 0 <= a ->
+  mark (fmt a d limit el) = false ->
+  mant (fmt a d limit el) * 10 ^ Z.of_nat (up (fmt a d limit el)) * d = a * 10 ^ Z.of_nat (down (fmt a d limit el)).
+Proof.
+  intros a d limit el Hd Ha Hm. destruct (display_faithful a d limit el Hd Ha) as [_ [H1 H2]].
+  destruct (Z.eq_dec (mant (fmt a d limit el) * 10 ^ Z.of_nat (up (fmt a d limit el)) * d) (a * 10 ^ Z.of_nat (down (fmt a d limit el)))) as [E|E]; [exact E|].
+  specialize (H2 E). congruence.
+Qed.
+
+Example example_display : let t := fmt 12345675 10 6 6 in mant t = 1234567 /\ up t = 0%nat /\ down t = 0%nat /\ mark t = true /\ edig t = 6%nat.
+Proof. vm_compute. repeat split. Qed.
